@@ -145,6 +145,9 @@ def _chunks(groups, n):
     return [s for s in shards if s]
 
 
+VDYN_EXTRA_ENV = {}      # e.g. {"RUSTEMO_TRACE": "1"}: the real parsers' trace output (to stderr, discarded) is produced
+
+
 def run_vdyn(groups, tag="vdyn"):
     """groups: list of lists of job lines (a group starts with its G job). Returns list of lists of
     answers in the same shape."""
@@ -169,7 +172,7 @@ def run_vdyn(groups, tag="vdyn"):
                 for line in groups[i]:
                     fh.write(line + "\n")
         procs.append((ids, of, subprocess.Popen([VDYN, jf, of], stdout=subprocess.DEVNULL,
-                                                stderr=subprocess.DEVNULL, env=ENV)))
+                                                stderr=subprocess.DEVNULL, env=dict(ENV, **VDYN_EXTRA_ENV))))
     answers = [None] * len(groups)
     for ids, of, p in procs:
         p.wait()
@@ -285,7 +288,8 @@ class Report:
         self.violations.append((path, no_input))
 
     def known_finding(self, key, what):
-        self.known.append((key, what))
+        if all(k != key for k, _ in self.known):
+            self.known.append((key, what))
 
     def sample(self, s):
         if len(self.samples) < 8:
